@@ -30,6 +30,9 @@ const SECS: [&str; 12] = ["0", "1", "-1", "2", "10", "100", "9223372036854775807
 const MS: [&str; 12] = ["0", "1", "-1", "2", "10", "100", "1000", "1500", "9223372036854775807", "abc", "999", "2000"];
 const SCORE_BOUNDS: [&str; 16] = ["-inf", "+inf", "inf", "0", "1", "(1", "2", "(2", "5", "-1", "(0", "abc", "(", "", "1.5", "(-inf"];
 const TIE_SCORES: [&str; 6] = ["1", "5", "5", "5", "9", "-0"];
+/// scores one or two ulps apart (Redis compares doubles exactly: a changed score is stored, counted by CH and re-ranked)
+const NEAR_SCORES: [&str; 12] = ["0.3", "0.30000000000000004", "0.1", "0.10000000000000002", "0", "5e-17", "1e-16", "1", "1.0000000000000002", "0.9999999999999999", "-5e-17", "2"];
+const NEAR_BOUNDS: [&str; 10] = ["0.3", "(0.3", "0.30000000000000004", "(0.30000000000000004", "0", "(0", "(5e-17", "1", "(1", "1.0000000000000002"];
 const TIE_BOUNDS: [&str; 10] = ["(5", "5", "(1", "1", "(9", "9", "-inf", "+inf", "(0", "0"];
 const PATTERNS: [&str; 10] = ["*", "k*", "k?", "k[12]", "k[^1]", "?1", "nomatch", "k\\1", "*1*", "k[1-3]"];
 
@@ -236,7 +239,29 @@ pub fn gen_cmd(rng: &mut Rng, fams: &[Family], now_ms: i64) -> Argv {
             10 => vec![b("HEXISTS"), k, pick(rng, &FIELDS)],
             _ => vec![b("HINCRBY"), k, pick(rng, &FIELDS), pick(rng, &INTS)],
         },
-        Family::ZSet => match rng.gen_range(0..19) {
+        Family::ZSet => match rng.gen_range(0..22) {
+            19 => {
+                let mut a = vec![b("ZADD"), k];
+                if rng.gen_bool(0.6) {
+                    a.push(pick(rng, &["CH", "XX", "GT", "LT", "NX"]));
+                }
+                if rng.gen_bool(0.3) {
+                    a.push(b("CH"));
+                }
+                for _ in 0..rng.gen_range(1..4) {
+                    a.push(pick(rng, &NEAR_SCORES));
+                    a.push(pick(rng, &MEMBERS[..3]));
+                }
+                a
+            }
+            20 => vec![b("ZCOUNT"), k, pick(rng, &NEAR_BOUNDS), pick(rng, &NEAR_BOUNDS)],
+            21 => {
+                if rng.gen_bool(0.5) {
+                    vec![b("ZRANGE"), k, b("0"), b("-1"), b("WITHSCORES")]
+                } else {
+                    vec![b("ZRANGEBYSCORE"), k, pick(rng, &["-inf", "0", "(0"]), pick(rng, &["+inf", "1", "(1"]), b("WITHSCORES")]
+                }
+            }
             // tie-heavy sets and bounds that sit exactly on the tied scores (inclusive and exclusive, as min and as max)
             16 => {
                 let mut a = vec![b("ZADD"), k];
